@@ -277,9 +277,11 @@ Proof.
     destruct (apply_component_change pr e t v) as [p' ch]. cbn [fst] in H.
     destruct from; [destruct ch|]; proj_solve; rewrite H; reflexivity.
   - (* CSendInitialSync *)
-    pose proof (g0_build_full_sync pr) as H.
-    destruct (build_full_sync pr) as [p' ms]. cbn [fst] in H.
-    rewrite g0_send. rewrite (foldl_pres g0); [rewrite H; reflexivity|]. intros; apply g0_send.
+    cbv zeta. pose proof (g0_react_components true pr) as H0.
+    set (pr0 := react_on_changed_components true pr) in *.
+    pose proof (g0_build_full_sync pr0) as H.
+    destruct (build_full_sync pr0) as [p' ms]. cbn [fst] in H.
+    rewrite g0_send. rewrite (foldl_pres g0); [rewrite H, H0; reflexivity|]. intros; apply g0_send.
   - (* CRequestInitialSync *)
     pose proof (g0_build_full_sync pr) as H.
     destruct (build_full_sync pr) as [p' ms]. cbn [fst] in H.
